@@ -122,6 +122,11 @@ def c05_tables(w):
     w("-- running interpreter: str.isalpha() for non-ASCII characters, as ranges")
     w(f"def alphaRangesNA : List (Nat × Nat) := {_pairs(_ranges(lambda cp: chr(cp).isalpha(), 128, sys.maxunicode + 1))}")
     w(f"def intMaxStrDigits : Nat := {sys.get_int_max_str_digits()}")
+    import decimal
+
+    w("-- running interpreter: limits of the decimal module's maximal context (used by Decimal(str))")
+    w(f"def decMaxEmax : Int := {decimal.MAX_EMAX}")
+    w(f"def decMinEtiny : Int := ({decimal.MIN_ETINY})")
     # hypothesis `EnvOk` of the QName theorems, checked on the running interpreter:
     # no character is_ncname lets through is white space for str.strip()
     punct = set(N.NCNAME_PUNCTUATION) | {"_"}
